@@ -308,14 +308,17 @@ func (e *Evaluator) evalForStmt(node *ast.ForStmt, env *object.Env) object.Objec
 
 	// loop through the block until the user's condition is false
 	for {
-		cond := e.Eval(node.Condition, newEnv)
+		// a loop without a condition runs until it reaches a break
+		if node.Condition != nil {
+			cond := e.Eval(node.Condition, newEnv)
 
-		if isError(cond) {
-			return cond
-		}
+			if isError(cond) {
+				return cond
+			}
 
-		if !isTruthy(cond) {
-			break
+			if !isTruthy(cond) {
+				break
+			}
 		}
 
 		block := e.Eval(node.Block, newEnv)
@@ -326,29 +329,34 @@ func (e *Evaluator) evalForStmt(node *ast.ForStmt, env *object.Env) object.Objec
 
 		blocks.WriteString(block.String())
 
+		if hasBreakStmt(block) {
+			break
+		}
+
+		if node.Post == nil {
+			continue
+		}
+
 		post := e.Eval(node.Post, newEnv)
 
 		if isError(post) {
 			return post
 		}
 
-		if node.Init == nil || node.Post == nil {
+		// an assignment like "i = i + 1" has already updated the variable
+		if _, isAssign := node.Post.(*ast.AssignStmt); isAssign {
 			continue
 		}
 
-		varName := node.Init.(*ast.AssignStmt).Name.Value
+		initStmt, hasInitVar := node.Init.(*ast.AssignStmt)
 
-		err := newEnv.Set(varName, post)
+		if !hasInitVar {
+			continue
+		}
+
+		err := newEnv.Set(initStmt.Name.Value, post)
 		if err != nil {
 			return e.newError(node, "%s", err.Error())
-		}
-
-		if hasBreakStmt(block) {
-			break
-		}
-
-		if hasContinueStmt(block) {
-			continue
 		}
 	}
 
